@@ -12,7 +12,7 @@ from .cpp01 import vtable_slots, struct_of
 SRC = dict(
     LOA='src/libawkward/array/ListOffsetArray.cpp', LA='src/libawkward/array/ListArray.cpp', RA='src/libawkward/array/RegularArray.cpp',
     IA='src/libawkward/array/IndexedArray.cpp', NA='src/libawkward/array/NumpyArray.cpp', BMA='src/libawkward/array/ByteMaskedArray.cpp',
-    IDX='src/libawkward/Index.cpp', CNT='src/libawkward/Content.cpp', UTL='src/libawkward/util.cpp', KD='src/libawkward/kernel-dispatch.cpp',
+    UMA='src/libawkward/array/UnmaskedArray.cpp', BIT='src/libawkward/array/BitMaskedArray.cpp', IDX='src/libawkward/Index.cpp', CNT='src/libawkward/Content.cpp', UTL='src/libawkward/util.cpp', KD='src/libawkward/kernel-dispatch.cpp',
     IDS='src/libawkward/Identities.cpp', SLC='src/libawkward/Slice.cpp', EA='src/libawkward/array/EmptyArray.cpp', KU='src/cpu-kernels/kernel-utils.cpp')
 
 
@@ -142,10 +142,24 @@ class Elem:
 NONE = Elem(BV(-1), z3.BoolVal(True))
 
 
+class Opt:
+    """a list-typed value that may be missing (an option node over a list-typed content)"""
+    def __init__(self, none, value):
+        self.none, self.value = none, value
+
+
 def compare(actual, expected, path='value'):
     """-> list of (description, violation condition) ; shapes are concrete, elements symbolic"""
     out = []
+    if isinstance(actual, Opt):
+        if isinstance(expected, Elem):
+            if z3.is_true(z3.simplify(expected.none)):
+                return [('%s is None' % path, z3.Not(actual.none))]
+            return [('%s: a list where an element is expected' % path, z3.Not(actual.none))]
+        return [('%s is not None' % path, actual.none)] + compare(actual.value, expected, path)
     if isinstance(expected, list) != isinstance(actual, list):
+        if isinstance(expected, list) and isinstance(actual, Elem):
+            return [('%s: None or an element where a list is expected' % path, z3.BoolVal(True))]
         return [('%s: a list where an element is expected (or the reverse)' % path, z3.BoolVal(True))]
     if isinstance(expected, list):
         if len(actual) != len(expected):
@@ -371,6 +385,7 @@ CLASSES = {
     'N7awkward11ListArrayOfIlEE': ('LA', '_ZNK7awkward11ListArrayOfIlE6lengthEv', 'list'),
     'N7awkward14IndexedArrayOfIlLb1EEE': ('IA', '_ZNK7awkward14IndexedArrayOfIlLb1EE6lengthEv', 'option'),
     'N7awkward14IndexedArrayOfIlLb0EEE': ('IA', '_ZNK7awkward14IndexedArrayOfIlLb0EE6lengthEv', 'indexed'),
+    'N7awkward13UnmaskedArrayE': ('UMA', '_ZNK7awkward13UnmaskedArray6lengthEv', 'unmasked'),
 }
 
 
@@ -403,6 +418,8 @@ def decode(nc, mem, p):
     if kind == 'list':
         return dict(cls=kind, starts=nc.index_terms(mem, Ptr(q.obj, q.off + fo[1]), 'starts')[0], stops=nc.index_terms(mem, Ptr(q.obj, q.off + fo[2]), 'stops')[0],
                     content=decode(nc, mem, cell(fo[3])))
+    if kind == 'unmasked':
+        return dict(cls=kind, content=decode(nc, mem, cell(fo[1])))
     if kind in ('option', 'indexed'):
         return dict(cls=kind, index=nc.index_terms(mem, Ptr(q.obj, q.off + fo[1]), 'index')[0], content=decode(nc, mem, cell(fo[2])))
     raise Unsupported(kind)
@@ -477,6 +494,8 @@ def length_of(d):
         return len(d['offsets']) - 1
     if d['cls'] == 'list':
         return len(d['starts'])
+    if d['cls'] == 'unmasked':
+        return length_of(d['content'])
     return len(d['index'])
 
 
@@ -491,6 +510,8 @@ def at(d, k):
     if c == 'regular':
         size = concrete(d['size'], 'RegularArray size')
         return [at(d['content'], z3.simplify(k * size + j)) for j in range(size)]
+    if c == 'unmasked':
+        return at(d['content'], k)
     kk = concrete(k, 'position in a list/index node')
     if c == 'listoffset':
         a, b = d['offsets'][kk], d['offsets'][kk + 1]
@@ -499,6 +520,8 @@ def at(d, k):
         a, b = d['starts'][kk], d['stops'][kk]
         return [at(d['content'], z3.simplify(a + j)) for j in range(concrete(b - a, 'list length'))]
     idx = d['index'][kk]
+    if c == 'option' and z3.is_true(z3.simplify(idx < 0)):
+        return NONE
     inner = at(d['content'], idx)
     if c == 'indexed':
         return inner
@@ -507,7 +530,9 @@ def at(d, k):
 
 def _mask(v, cond):
     if isinstance(v, list):
-        raise Unsupported('option node over list-typed content in the decoder')
+        return Opt(z3.simplify(cond), v)
+    if isinstance(v, Opt):
+        return Opt(z3.simplify(z3.Or(v.none, cond)), v.value)
     return Elem(v.val, z3.simplify(z3.Or(v.none, cond)))
 
 
